@@ -214,8 +214,8 @@ Definition d_braid_shell_retention : fmt := FSeq [H32; H32; H32; H32; H32; IMPOR
 Definition d_suffix_import : fmt := FSeq [H32; H32; H32; H32; H32; H32; H32; IMPORT_OUTCOME; H32; H32; H32].
 (* "ETICK002" *)
 Definition d_tick_receipt : fmt := FSeq [FConst [0x45; 0x54; 0x49; 0x43; 0x4B; 0x30; 0x30; 0x32]; CTRR; TICK_DECISION].
-(* the wire layout of StrandForkRecord; the real decoder additionally SORTS writer_heads after
-   reading them (see [strand_fork_dec] below) *)
+(* the wire layout of StrandForkRecord; the real decoder additionally rejects writer heads that
+   are not in canonical order (see [strand_fork_dec] below) *)
 Definition d_strand_fork : fmt := FSeq [H32; H32; H32; U64; H32; H32; H32; FVec 8 WHK; H32; H32; OPT_HASH].
 (* "EINT" op_id:u32 vars_len:u32 vars *)
 Definition d_eint : fmt := FSeq [FConst [0x45; 0x49; 0x4E; 0x54]; U32; FBytes 4].
@@ -236,19 +236,21 @@ Definition all_descriptors : list fmt :=
    d_topology_braid_event; d_braid_shell_retention; d_suffix_import; d_tick_receipt; d_strand_fork; d_eint].
 
 (* ------------------------------------------------------------------ StrandForkRecord as it is
-   `from_payload_bytes` reads the heads and then applies `canonical_writer_heads` (sort by
-   (worldline_id, head_id) bytes, no dedup); `to_payload_bytes` sorts before writing. *)
+   `to_payload_bytes` writes `canonical_writer_heads(&self.writer_heads)` (stable sort by
+   (worldline_id, head_id) bytes, no dedup); `from_payload_bytes` reads the heads and rejects
+   the payload with NonCanonicalWriterHeads when `canonical_writer_heads(&heads) != heads`. *)
 From Echo Require Import Base.Order.
 
 Definition head_key (v : fval) : bytes :=
   match v with XSeq [XRaw a; XRaw b] => a ++ b | _ => [] end.
 
+(* stable insertion: before the first element that is not smaller *)
 Fixpoint insert_head (x : fval) (l : list fval) : list fval :=
   match l with
   | [] => [x]
   | y :: r => match bytes_cmp (head_key x) (head_key y) with
-              | Lt => x :: l
-              | _ => y :: insert_head x r
+              | Gt => y :: insert_head x r
+              | _ => x :: l
               end
   end.
 Definition sort_heads (l : list fval) : list fval := fold_right insert_head [] l.
@@ -260,7 +262,39 @@ Definition canonicalize_fork (v : fval) : fval :=
   | other => other
   end.
 
-Definition strand_fork_dec (b : bytes) : option fval := option_map canonicalize_fork (dec_top d_strand_fork b).
+Definition bytes_eqb (x y : bytes) : bool := if list_eq_dec N.eq_dec x y then true else false.
+
+Fixpoint fval_eqb (a b : fval) {struct a} : bool :=
+  match a, b with
+  | XU n, XU m => n =? m
+  | XRaw x, XRaw y => bytes_eqb x y
+  | XUnit, XUnit => true
+  | XNone, XNone => true
+  | XSome x, XSome y => fval_eqb x y
+  | XBytes x, XBytes y => bytes_eqb x y
+  | XVec l, XVec m =>
+      (fix go (l m : list fval) : bool :=
+         match l, m with
+         | [], [] => true
+         | x :: l', y :: m' => fval_eqb x y && go l' m'
+         | _, _ => false
+         end) l m
+  | XSeq l, XSeq m =>
+      (fix go (l m : list fval) : bool :=
+         match l, m with
+         | [], [] => true
+         | x :: l', y :: m' => fval_eqb x y && go l' m'
+         | _, _ => false
+         end) l m
+  | XEnum c x, XEnum d y => (c =? d) && fval_eqb x y
+  | _, _ => false
+  end.
+
+Definition strand_fork_dec (b : bytes) : option fval :=
+  match dec_top d_strand_fork b with
+  | Some v => if fval_eqb (canonicalize_fork v) v then Some v else None
+  | None => None
+  end.
 Definition strand_fork_enc (v : fval) : option bytes := enc_fmt d_strand_fork (canonicalize_fork v).
 
 Definition run_strand_fork (b : bytes) : N * bytes :=
